@@ -78,6 +78,28 @@ theorem plookup_set {σ} (l : List (EvId × ProcRec σ)) (p p' : EvId) (r : Proc
     unfold plookup
     rw [List.find?_cons_of_neg (by simp [Ne.symm h]), find?_filter_ne _ _ _ (Ne.symm h)]
 
+theorem plookup_cons {σ} (l : List (EvId × ProcRec σ)) (p p' : EvId) (r : ProcRec σ) :
+    plookup ((p', r) :: l) p = if p = p' then some r else plookup l p := by
+  by_cases h : p = p'
+  · subst h; simp [plookup]
+  · rw [if_neg h]
+    unfold plookup
+    rw [List.find?_cons_of_neg (by simp [Ne.symm h])]
+
+theorem plookup_filter_ne {σ} (l : List (EvId × ProcRec σ)) (p p' : EvId) (h : p ≠ p') :
+    plookup (l.filter (·.1 != p')) p = plookup l p := by
+  unfold plookup
+  rw [find?_filter_ne _ _ _ (Ne.symm h)]
+
+/-- successive fresh indices are different -/
+theorem fresh_ne (n : Nat) :
+    (n = n + 1) = False ∧ (n = n + 1 + 1) = False ∧ (n = n + 1 + 1 + 1) = False ∧ (n + 1 = n) = False ∧
+    (n + 1 + 1 = n) = False ∧ (n + 1 + 1 + 1 = n) = False ∧ (n + 1 = n + 1 + 1) = False ∧ (n + 1 = n + 1 + 1 + 1) = False ∧
+    (n + 1 + 1 = n + 1) = False ∧ (n + 1 + 1 + 1 = n + 1) = False ∧ (n + 1 + 1 = n + 1 + 1 + 1) = False ∧
+    (n + 1 + 1 + 1 = n + 1 + 1) = False := by
+  simp only [eq_iff_iff, iff_false]
+  omega
+
 /-! ## `resume` and `step` without duplicated sub-terms -/
 
 /-- what `_resume` does once the burst has run -/
@@ -169,7 +191,7 @@ theorem doCall_interrupt_ok (s : KS) (self p : EvId) (cause : Val) (hk : (s.even
 
 /-- `Process.interrupt` on a process that has terminated is refused -/
 theorem doCall_interrupt_dead (s : KS) (self p : EvId) (cause : Val) (hk : (s.events.getD p default).kind = .proc)
-    (o : Outcome) (ho : (s.events.getD p default).out = some o) :
+    (ho : (s.events.getD p default).out.isSome = true) :
     doCall s self (.interrupt p cause) = (s, .err (runtimeErr "terminated")) := by
   simp [-Array.getD_eq_getD_getElem?, doCall, KState.ev, hk, mkInterrupt, KState.triggered, ho]
 
@@ -199,7 +221,7 @@ attribute [timerk] deliverSt resumeArg body runBurst noteErr
   cStopped cExpire cTimeout cStart cProc cFired
   doCall_load doCall_store doCall_log_int doCall_log_none doCall_log_enc doCall_timeout doCall_spawn
   doCall_interrupt_self doCall_interrupt_dead doCall_interrupt_ok
-  lookup_store lookup_cons lookup_filter_ne plookup_set proc?_eq dec_enc
+  lookup_store lookup_cons lookup_filter_ne plookup_set plookup_cons plookup_filter_ne fresh_ne proc?_eq dec_enc
   getD_push getD_setIfInBounds push_setIfInBounds_size push_setIfInBounds_size' zero_eq'
 
 /-- symbolic execution of the kernel model on flat states -/
